@@ -28,6 +28,22 @@ def inlines():
             "contra": [E(B("lt", F("a"), F("a")))], "soft_b1": [{"k": "soft", "e": B("eq", F("b"), lit(1))}]}
 
 
+def world_lists():
+    """W-lists: class L {a rand 1 bit; l: random fixed-size list of 1-bit elements (starts with one element, at most three);
+    nl: non-random list; blocks f1: every element <= a; u1: unique(l); m1: a in nl}; objects o1, o2"""
+    from .worlds import F, B, E, lit
+    from .fam_expr import fld
+    L = {"base": "", "fields": [fld("a", 1, False),
+                                {"name": "l", "kind": "list", "w": 1, "signed": False, "rand": True, "init": [0], "randsz": False, "cap": 3},
+                                {"name": "nl", "kind": "list", "w": 1, "signed": False, "rand": False, "init": [1], "randsz": False, "cap": 2}],
+         "blocks": [{"name": "f1", "dynamic": False,
+                     "body": [{"k": "foreach", "l": "l", "v": "i", "it": True, "idx": False, "of": "",
+                               "body": [E(B("le", {"k": "it", "v": "i", "p": ""}, F("a")))]}]},
+                    {"name": "u1", "dynamic": False, "body": [{"k": "uniq", "args": [{"k": "lst", "p": "l"}]}]},
+                    {"name": "m1", "dynamic": False, "body": [E({"k": "in", "e": F("a"), "items": [{"k": "l", "p": "nl"}], "neg": False})]}]}
+    return {"classes": {"L": L}, "population": [{"id": "o1", "cls": "L"}, {"id": "o2", "cls": "L"}]}
+
+
 def main():
     from . import worlds
     out = os.path.join(ROOT, "spec", "mc")
@@ -35,6 +51,9 @@ def main():
     w = world_flags()
     json.dump({"world": worlds.flatten(w), "src": w, "inlines": inlines()}, open(os.path.join(out, "w_flags.json"), "w"))
     print("wrote", os.path.join(out, "w_flags.json"))
+    w = world_lists()
+    json.dump({"world": worlds.flatten(w), "src": w}, open(os.path.join(out, "w_lists.json"), "w"))
+    print("wrote", os.path.join(out, "w_lists.json"))
 
 
 if __name__ == "__main__":
